@@ -27,7 +27,7 @@ def run(ck):
     if translator_ok:
         proof_ok, failing = ck.proof_stage('MpVerif.C17.Props', 'MpVerif/C17/Props.lean', 'C17_',
                                             ['MpVerif/C17/*.lean', 'MpVerif/Gen/SafeInt.lean', 'MpVerif/Basic/CSem.lean'],
-                                            expect_min=137)
+                                            expect_min=138)
         ck.log('proof stage: ok=%s failing=%s' % (proof_ok, failing[:12]))
         if ck.tier == 'thorough' and proof_ok:
             bad = ck.leanchecker(['MpVerif.C17.Props'])
@@ -36,7 +36,7 @@ def run(ck):
                 proof_ok = False
     else:
         failing = ['translator: ' + (out + err).strip()[-400:]]
-        ck.cov.update({'obligations': 137, 'discharged': 0, 'checker_cmd': 'translators/gen_safeint.py failed'})
+        ck.cov.update({'obligations': 138, 'discharged': 0, 'checker_cmd': 'translators/gen_safeint.py failed'})
 
     # implementation run + oracle
     exe = ck.cxx('h_safeint', [os.path.join(VERIF, 'harness', 'h_safeint.cc')],
